@@ -2,6 +2,12 @@
 """prints the prompt handed to an independent sub-agent for one property (only the property text + its scratch worktree)"""
 import json, sys
 pid = sys.argv[1]
+import glob, os
+prior = []
+for m in sorted(glob.glob(f'/verif/seeded/{pid}-*/agent_meta.json')):
+    try: prior.append(json.load(open(m)).get('summary', ''))
+    except Exception: pass
+ROUND3 = len(sys.argv) > 2 and sys.argv[2] == 'round3'
 p = next(json.loads(l) for l in open('/verif/properties.jsonl') if json.loads(l)['id'] == pid)
 print(f"""You are helping to evaluate a verification effort by producing realistic regressions ("seeded changes") for a Python library.
 
@@ -17,6 +23,7 @@ The property that should always hold for this library:
   Quantified over: {p['quantifier']['text']}
 
 Your task: produce a change to the library's NON-TEST source code that BREAKS this property while the package still imports and the existing test suite still passes exactly as before.  The change should look like a plausible refactoring slip or "optimisation" a real contributor could make.  It must need something specific to manifest -- an unusual input, a boundary value, a particular multi-step sequence of operations, a particular option combination, or two cooperating edits that each look fine alone -- NOT something that ordinary use of the library would expose at once.  Produce TWO different such changes if you can (different code sites / different mechanisms); one is acceptable.
+{('Earlier reviewers already produced the following changes; yours must differ from them in code site AND mechanism (prefer a different source file, a less obvious function the property depends on indirectly, or an interaction between two features):' + chr(10) + chr(10).join('  - ' + x for x in prior) + chr(10)) if ROUND3 else ''}
 
 For each change k (1, 2) deliver in /tmp/seed/{pid}-out/:
   * patch{{k}}.diff  -- `git diff` of the change against the worktree HEAD (must apply with `git apply` on a clean checkout);
